@@ -161,6 +161,7 @@ class Folder:
         self.pick = 'lo'                        # how an AbsIdx is made concrete
         self.capture_returns = False            # stop at the first return statement reached (Captured)
         self.enum_tables = {}                   # enumeration class name -> member names (in definition order); validates enums.X['K']
+        self.enum_values = {}                   # enumeration class name -> {member name: value}: gives members a .value and makes Cls(value) / Cls[name] total
         self.module = None                      # ast.Module: free names resolve to its functions, Enum classes and (folded) constants
         self._globals = {}
         self._resolving = set()
@@ -184,6 +185,10 @@ class Folder:
             raise Unfoldable('free name %s' % name)
         d = defs[0]
         if isinstance(d, ast.FunctionDef):
+            for dec in d.decorator_list:
+                dn_ = dotted(dec.func if isinstance(dec, ast.Call) else dec) or ''
+                if dn_.split('.')[-1] not in ('lru_cache', 'cache', 'wraps'):
+                    raise Unfoldable('decorated function %s' % name)          # a memoising decorator does not change what a pure function returns
             v = d
         elif isinstance(d, ast.ClassDef):
             bases = {dotted(b) for b in d.bases}
@@ -427,6 +432,10 @@ class Folder:
                 if b.name in self.enum_tables and e.attr not in self.enum_tables[b.name]:
                     raise Raised('AttributeError', e)
                 return Enum(b.name, e.attr)
+            if isinstance(b, Enum) and e.attr == 'value':
+                if b.cls in self.enum_values and b.name in self.enum_values[b.cls]:
+                    return self.enum_values[b.cls][b.name]
+                raise Unfoldable('value of %r' % (b,))
             if isinstance(b, (Version, Enum)) and hasattr(b, e.attr) and not e.attr.startswith('_'):
                 return getattr(b, e.attr)
             if isinstance(b, dict) and e.attr in b.get('__props__', ()):
@@ -443,6 +452,17 @@ class Folder:
             out = []
             self.comp(e.generators, 0, dict(env), lambda env2: out.append(self.ev(e.elt, env2)))
             return set(out) if isinstance(e, ast.SetComp) else out
+        if isinstance(e, ast.DictComp):
+            outd = {}
+
+            def emit_(env2):
+                k_ = self.ev(e.key, env2)
+                try:
+                    outd[k_] = self.ev(e.value, env2)
+                except TypeError:
+                    raise Raised('TypeError', e)          # unhashable key
+            self.comp(e.generators, 0, dict(env), emit_)
+            return outd
         if isinstance(e, ast.JoinedStr):
             parts = []
             for v in e.values:
@@ -482,10 +502,27 @@ class Folder:
         if name in self.models:
             return self.models[name](*args, **kw)
         if isinstance(e.func, ast.Attribute) and isinstance(e.func.value, ast.Name) and e.func.value.id == 'self' and e.func.attr in self.methods and 'self' in env:
-            return self.call_method(self.methods[e.func.attr], env['self'], args, kw)
+            fm_ = self.methods[e.func.attr]
+            decs_ = [dotted(d_) or '' for d_ in fm_.decorator_list]
+            if 'staticmethod' in decs_:
+                return self.call_function(fm_, args, kw)
+            return self.call_method(fm_, env['self'], args, kw)
         if name and name.split('.')[-1] in self.models and '.' in name and name.split('.')[0] not in env:
             # <module>.<function> for a modelled function (the receiver is not a local value)
             return self.models[name.split('.')[-1]](*args, **kw)
+        if not isinstance(e.func, ast.Name) or e.func.id not in FUNCS:
+            try:
+                fv_ = self.ev(e.func, env) if isinstance(e.func, (ast.Name, ast.Attribute)) and not (isinstance(e.func, ast.Attribute) and isinstance(e.func.value, ast.Name) and e.func.value.id not in env and e.func.value.id != 'enums') else None
+            except (Unfoldable, Raised):
+                fv_ = None
+            if isinstance(fv_, EnumClass) and len(args) == 1 and not kw:
+                # Cls(value): the member with that value
+                if fv_.name not in self.enum_values:
+                    raise Unfoldable('members of enums.%s by value' % fv_.name)
+                for nm_, val_ in self.enum_values[fv_.name].items():
+                    if val_ == args[0] and type(val_) is type(args[0]):
+                        return Enum(fv_.name, nm_)
+                raise Raised('ValueError', e)
         if isinstance(e.func, ast.Name) and (e.func.id in env or e.func.id not in FUNCS):
             try:
                 fv = env[e.func.id] if e.func.id in env else self.global_name(e.func.id)
@@ -510,6 +547,8 @@ class Folder:
                 return res_
             if any(isinstance(x, (AbsNum,)) for x in args) and e.func.id in ('int', 'abs', 'min', 'max'):
                 return AbsNum()
+            if e.func.id in ('tuple', 'list', 'set', 'frozenset', 'sorted', 'enumerate', 'reversed', 'len') and any(isinstance(x, EnumClass) for x in args):
+                args = [self.items_of(x) if isinstance(x, EnumClass) else x for x in args]         # an enumeration class iterates over its members
             try:
                 return FUNCS[e.func.id](*args, **kw)
             except (ValueError, TypeError) as ex:
@@ -860,9 +899,12 @@ class AbsStr:
     def m_find(self, *a):
         return AbsIdx(self.n) if self.n else -1
 
-    def m_encode(self, *a):
+    def m_encode(self, *a, **kw):
         r = AbsBytes(self.n)
-        r.exact = False        # a character can take more than one byte: only a lower bound on the length is known
+        enc = (a[0] if a else kw.get('encoding', 'utf-8'))
+        # a single-byte encoding gives exactly one byte per character (or raises); otherwise a character can take several bytes and
+        # only a lower bound on the length is known
+        r.exact = isinstance(enc, str) and enc.lower().replace('_', '-') in ('ascii', 'us-ascii', 'latin-1', 'latin1', 'iso-8859-1', 'iso8859-1', 'cp1252')
         return r
 
     def m_lstrip(self, chars=None):
